@@ -73,6 +73,21 @@ def build(pest, grammar: str, mode: str, passes=None):
     return p, p
 
 
+_LAST_TEXT = None
+
+
+def fresh_copy(text: str) -> str:
+    """A new string object equal to `text`.  The previous copy is released at this moment and the new one is the next object of
+    that size to be allocated, so - for texts of equal length - it lands at the address the previous text had (CPython hands a
+    freed block to the next request of its size class).  The copy lives until the next call."""
+    global _LAST_TEXT  # noqa: PLW0603
+    _LAST_TEXT = None
+    if len(text) > 1:
+        text = text.encode("utf-8", "surrogatepass").decode("utf-8", "surrogatepass")  # intermediate bytes object: another size class
+    _LAST_TEXT = text
+    return text
+
+
 def proj_pair(p):
     return [p.name, p.start, p.end, p.tag, [proj_pair(c) for c in p.children]]
 
@@ -89,8 +104,8 @@ def run_parse(pest, parser, rule: str, text: str, start: int = 0, *, tags: bool 
     # Every call gets its OWN copy of the input, dropped when the call is over: consecutive calls then tend to see different
     # texts at the same address, as an application parsing one temporary string after another does (anything remembered
     # between calls by id(text) shows up as a wrong result instead of staying hidden behind a corpus that is kept alive).
-    if len(text) > 1 and not keep:
-        text = text[:1] + text[1:]
+    if not keep:
+        text = fresh_copy(text)
     try:
         with watchdog(timeout):
             r = parser.parse(rule, text, start_pos=start)
@@ -101,7 +116,7 @@ def run_parse(pest, parser, rule: str, text: str, start: int = 0, *, tags: bool 
     except pest.PestParsingError as e:
         out = {"ok": False, "fpos": e.state.furthest_pos}
         if keep:
-            out["_err"] = e
+            out["_err"] = e.with_traceback(None)  # no cycle through this frame: the error (and the input it holds) goes when the caller drops it
         return out
     except Timeout:
         global TIMEOUTS  # noqa: PLW0603
